@@ -91,7 +91,11 @@ class Bit:
         parts = (["1"] if self.mask & 1 else []) + vs + ["&%d" % a for a in sorted(self.ands)]
         return "<" + "^".join(parts[:8]) + ("…" if len(parts) > 8 else "") + ">"
 
-    __hash__ = None
+    # Symbolic values hash to one constant: a dict / set / functools cache then compares a symbolic key with every other symbolic
+    # key it holds by == , whose truth value FORKS the path (Bit.__bool__), i.e. keyed containers get their exact semantics by
+    # case analysis.  (Look-ups in containers that also hold concrete keys are lifted in runtime.getitem / contains / dict.get.)
+    def __hash__(self):
+        return 0x53594D
 
     # ---- operators (operands: Bit | 0 | 1 | bool)
     def __xor__(self, o):
